@@ -23,9 +23,9 @@ class C06(Prop):
     deadline = 30.0
 
     def cases(self, rng, tier):
-        N = 250 if tier == "quick" else 4000
+        N = 320 if tier == "quick" else 5000
         for i in range(N):
-            kind = ["dyadic", "dyadic", "uniform", "float", "scaled", "ps"][i % 6]
+            kind = ["dyadic", "dyadic", "uniform", "float", "scaled", "ps", "neartie", "bigint"][i % 8]
             n = rng.randint(1, 5 if kind != "float" else 4); k = rng.randint(1, 5)
             if kind == "ps":
                 n = rng.randint(2, 5)
@@ -38,9 +38,11 @@ class C06(Prop):
                 if kind == "dyadic": w = Fraction(rng.randint(1, 3), 2 ** rng.randint(0, 4))
                 elif kind == "uniform": w = Fraction(1, k)
                 elif kind == "scaled": w = Fraction(rng.randint(1, 9))
+                elif kind == "bigint": w = Fraction(rng.choice([100000, 100001, 150000, 99999, 1000003]))
+                elif kind == "neartie": w = Fraction(rng.choice([0.3, 0.3, 0.25])) * (1 + Fraction(rng.choice([0, 1, 2, 7, -3]), 10**6))
                 else: w = Fraction(rng.random())
                 ws.append(w)
-            if kind == "float":
+            if kind in ("float", "neartie"):
                 tot = sum(ws); ws = [w / tot for w in ws]
             for w in ws:
                 p = rng.sample(range(n), n)
